@@ -424,7 +424,7 @@ def run_pairs(ctx, name, rng, quick, with_cross=True):
     ids = [x for x in ctx.tables["active"] if not x.endswith("-only") and not x.endswith("-or-later")]
     ctx.write_params("MC_Pairs_P", {"TextsA": tla_seq(texts), "TextsB": "TextsA",
                                     "Blocks": "<<" + ", ".join("<<%d, %d, %d, %d>>" % b for b in blocks) + ">>",
-                                    "First": Q(min(ids)), "Last": Q(max(ids))})   # byte-order extremes: allowed lists are sorted that way
+                                    "First": Q(min(ids)), "Last": Q(max(ids)), "PairExc": Q(rng.choice(ctx.tables["exceptions"]))})   # byte-order extremes: allowed lists are sorted that way
     npairs = sum((b[1] - b[0] + 1) * (b[3] - b[2] + 1) for b in blocks)
     ctx.notes.append("%s: %d texts, %d blocks, %d ordered pairs" % (name, len(texts), len(blocks), npairs))
     r = ctx.run_tlc(name, "MC_Pairs", "MC_Pairs", timeout=3000, extra=["-continue"])
